@@ -31,8 +31,9 @@
 // Tolerances (DESIGN §1.4): analytic crossing times are compared with 2e-9 time slack plus twice the measured
 // deviation of the observed state from the analytic trajectory mapped to time (zero for exactly integrated
 // components, so the slack only widens where the integrator itself is inexact); witness signs are judged up
-// to 1e-12 relative roundoff of the witness; "state on trajectory" 1e-10 relative (CPodes: + 1e-2*accuracy,
-// its linear components are exact only up to a fraction of its tolerance while the step size recovers).
+// to 1e-12 relative roundoff of the witness; "state on trajectory" 1e-10 relative (CPodes: + 5*accuracy: it
+// follows even the linear components only to within its tolerance, 0.16*accuracy was seen; its accuracy is
+// C20's business, here the measured deviation only widens the time slack).
 //
 // Behaviour seen on the unchanged tree that is counted (c.obs) but NOT judged, with the reason:
 //  * before-state-marginally-past-crossing: the before-state returned with ReachedEventTrigger is
@@ -46,12 +47,16 @@
 //    after the handler (out of time order) when it does not: the window is "no man's land" by design.
 //
 // Attribution (DESIGN §1.5a): anomalies of events reported by CPodes within one step of a (re)start at
-// which some witness is exactly zero are keyed "cpodes-restart:..." whatever oracle noticed them; a state
+// which some witness is exactly zero are keyed "cpodes-restart:..." whatever oracle noticed them; CPodes
+// anomalies where a crossing / window edge / dispatch lies within 1e-11 of a report, scheduled or target time
+// (CPodesIntegrator neither keeps such times out of its ~1e-13 wide root windows nor compares them robustly)
+// are keyed "cpodes-coincidence:..."; a state
 // that changes although no time passed and no handler touched it is keyed "continue:state-changed-without-
 // integration:<class>"; handlers of the default subsystem called at another subsystem's scheduled time are
 // keyed "sched:called-at-unscheduled-time:two-subsystems-own-scheduled-events".
 // A per-case budget of derivative evaluations (no wall clock) turns a library loop that keeps evaluating the
-// system into an exception; a runaway of handler calls is stopped by the handlers themselves.
+// system into an exception; a runaway of handler calls is stopped by the handlers themselves (judged only when
+// the calls repeat at one and the same time; otherwise the generated system is Zeno-like and the case is skipped).
 #include "vh.h"
 #include "SimTKcommon.h"
 #include "SimTKcommon/internal/SystemGuts.h"
@@ -77,7 +82,7 @@ const int IQ = 0, IU = 1, IZ = 2;
 double DT = 2e-9;              // slack (time units) when comparing with analytic crossing times (debug: --dt)
 const double GUARD = 2e-8;     // roots this close to the start of a continuous interval are not judged
 const double YTOL = 1e-10;     // relative slack for "state lies on the analytic trajectory"
-const double CPTOL = 1e-2;     // CPodes: additional slack as a fraction of the requested accuracy
+const double CPTOL = 5;        // CPodes: its states follow the analytic line only to within its accuracy (seen: 0.16*acc)
 const size_t CALLCAP = 3000;   // handler-call runaway guard
 const long EVALCAP = 500000;   // derivative-evaluation budget per case (normal cases need < 1e4): turns a library
                                // loop that keeps evaluating the system into an exception instead of a hang
@@ -565,14 +570,50 @@ struct Judge {
         return false;
     }
     static const char* restartKey() { return "cpodes-restart:event-anomaly-within-one-step-of-restart-with-exactly-zero-witness"; }
+    // Second CPodes situation: a crossing, its window edge or a dispatch lies within roundoff (1e-11) of a
+    // report / scheduled / target time. CPodesIntegrator does not keep such times out of its (1e-13 wide) root
+    // windows and compares them with >= / > on times that differ by a few ulps, so events and scheduled
+    // handlers are then lost, mis-timed by ~1e-14 or dispatched twice. All oracles noticing that get one key.
+    bool nearSpecial(double t) const {
+        const double E = 1e-11 * std::max(1.0, std::fabs(t));
+        auto near = [&](double x) { return std::fabs(x - t) <= E; };
+        for (double x : sc.reps) if (near(x)) return true;
+        for (double x : sc.scheds) if (near(x)) return true;
+        for (double x : sc.targets) if (near(x)) return true;
+        for (auto& H : S.hs) {
+            for (double x : H.times) if (near(x)) return true;
+            if (H.period > 0 && near(std::round(t / H.period) * H.period)) return true;
+        }
+        return false;
+    }
+    bool nearTrigDispatch(double t) const {
+        const double E = 1e-11 * std::max(1.0, std::fabs(t));
+        for (auto& r : S.log) if (isTriggered(S.hs[r.h].kind) && std::fabs(r.t - t) <= E) return true;
+        return false;
+    }
+    static const char* coincKey() { return "cpodes-coincidence:crossing-or-dispatch-within-roundoff-of-a-report-or-scheduled-time"; }
+    const char* attribute(const Traj& T, double t) const {
+        if (!isCPodes(sc.ik)) return nullptr;
+        if (zeroWitnessRestart(T, t)) return restartKey();
+        if (nearSpecial(t)) return coincKey();
+        return nullptr;
+    }
     bool checkK(const std::string& key, double resid, double tol, const Traj& T, double t, const std::function<Json()>& w) {
-        if (resid <= tol || !zeroWitnessRestart(T, t)) return c.check(key, resid, tol, w);
-        c.viol(restartKey(), w().set("oracle", key).set("resid", resid).set("tol", tol));
+        const char* a = resid <= tol ? nullptr : attribute(T, t);
+        if (!a) return c.check(key, resid, tol, w);
+        c.viol(a, w().set("oracle", key).set("resid", resid).set("tol", tol));
         return false;
     }
     bool requireK(const std::string& key, bool ok, const Traj& T, double t, const std::function<Json()>& w) {
-        if (ok || !zeroWitnessRestart(T, t)) return c.require(key, ok, w);
-        c.viol(restartKey(), w().set("oracle", key));
+        const char* a = ok ? nullptr : attribute(T, t);
+        if (!a) return c.require(key, ok, w);
+        c.viol(a, w().set("oracle", key));
+        return false;
+    }
+    // scheduled-dispatch anomalies (CPodes): attributed when the time is within roundoff of a triggered dispatch
+    bool requireS(const std::string& key, bool ok, double t, const std::function<Json()>& w) {
+        if (ok || !isCPodes(sc.ik) || !nearTrigDispatch(t)) return c.require(key, ok, w);
+        c.viol(coincKey(), w().set("oracle", key));
         return false;
     }
     double winBound(const Wit& w, double acc, double t) const {
@@ -602,9 +643,13 @@ struct Judge {
         const Par& P = S.P;
         const std::vector<Rec>& L = S.log;
         if (S.runaway) {
-            std::map<int, int> cnt; for (auto& r : L) ++cnt[r.h];
-            int worst = 0; for (auto& kv : cnt) if (kv.second > cnt[worst]) worst = kv.first;
-            c.viol("stepper:handler-call-runaway:" + hkey(worst), Json::obj().set("scen", sc.str()).set("calls", (long)L.size()).set("handler", worst).set("lastTime", L.back().t).set("prevTime", L[L.size() - 2].t));
+            // More than CALLCAP handler calls. If time still advances between them the generated hybrid system (or
+            // its first-order discretisation) is Zeno-like: not judged. Re-dispatch at one and the same time
+            // forever is the library's doing.
+            bool sameTime = true;
+            for (size_t k = L.size() - 200; k < L.size(); ++k) sameTime &= (L[k].t == L.back().t);
+            if (sameTime) c.viol("stepper:handlers-redispatched-forever-at-one-time:" + std::string(hkName(S.hs[L.back().h].kind)), Json::obj().set("scen", sc.str()).set("calls", (long)L.size()).set("time", L.back().t));
+            else c.skip("handler-call-cap-reached(zeno-like-generated-system)");
             return;
         }
         std::vector<std::set<double>> seenTimes(S.hs.size());
@@ -624,7 +669,7 @@ struct Judge {
                 const HKind kk = S.hs[r0.h].kind;
                 const bool rp = (kk == HSchedRep || kk == HPerRep);
                 const double lim = rp ? std::max(lastRepT, lastT - lastWg - DT) : lastT;
-                c.require(std::string("order:calls-nondecreasing-time:") + (rp ? "reporter:" : "handler:") + tag, r0.t >= lim, [&] { return Json::obj().set("scen", sc.str()).set("t", r0.t).set("prevHandlerTime", lastT).set("prevReportTime", lastRepT).set("window", lastWg).set("handler", hkey(r0.h)); });
+                requireS(std::string("order:calls-nondecreasing-time:") + (rp ? "reporter:" : "handler:") + tag, r0.t >= lim, r0.t, [&] { return Json::obj().set("scen", sc.str()).set("t", r0.t).set("prevHandlerTime", lastT).set("prevReportTime", lastRepT).set("window", lastWg).set("handler", hkey(r0.h)); });
                 if (rp) lastRepT = std::max(lastRepT, r0.t); else lastT = std::max(lastT, r0.t);
             }
             if (terminated && r0.t > tTerm)
@@ -641,7 +686,7 @@ struct Judge {
             while (j < L.size() && L[j].t == r0.t && S.hs[L[j].h].kind != HSchedRep && S.hs[L[j].h].kind != HPerRep) ++j;
             const double tG = r0.t;
             // (a) integration up to the group started from the previous handler output
-            c.require("continue:time-not-before-previous-dispatch:" + tag, tG >= seg.ts, [&] { return Json::obj().set("scen", sc.str()).set("t", tG).set("segStart", seg.ts); });
+            requireS("continue:time-not-before-previous-dispatch:" + tag, tG >= seg.ts, tG, [&] { return Json::obj().set("scen", sc.str()).set("t", tG).set("segStart", seg.ts); });
             if (tG >= seg.ts) onTraj("handler-entry-state", seg, tG, r0.yin);
             c.require("continue:discrete-state-kept:" + tag, r0.muIn == seg.mu && r0.nuIn == seg.nu, [&] { return Json::obj().set("scen", sc.str()).set("t", tG).set("mu", r0.muIn).set("expectedMu", seg.mu).set("nu", r0.nuIn).set("expectedNu", seg.nu); });
             // (b) handlers of one dispatch chain on one State
@@ -727,7 +772,7 @@ struct Judge {
                 if (isReporter(H.kind)) for (auto& tw : trigWins) inWindow |= (x > tw.first - tw.second - DT && x <= tw.first);
                 if (inWindow) { c.obs("scheduled-report-inside-event-window-dropped"); continue; }
                 bool ok = seenTimes[h].count(x) > 0;
-                c.require(std::string("sched:scheduled-time-not-served:") + hkName(H.kind), ok, [&] { return Json::obj().set("scen", sc.str()).set("time", x).set("tStop", tStop).set("handler", (long)h).set("terminated", terminated).set("served", jvec(std::vector<double>(seenTimes[h].begin(), seenTimes[h].end()))); });
+                requireS(std::string("sched:scheduled-time-not-served:") + hkName(H.kind), ok, x, [&] { return Json::obj().set("scen", sc.str()).set("time", x).set("tStop", tStop).set("handler", (long)h).set("terminated", terminated).set("served", jvec(std::vector<double>(seenTimes[h].begin(), seenTimes[h].end()))); });
             }
             if (!exp.empty() || !seenTimes[h].empty()) c.cover(coverKey((int)h));
         }
@@ -737,11 +782,18 @@ struct Judge {
         bool sched;
         if (H.kind == HPer || H.kind == HPerRep) { long long k = std::llround(t / H.period); sched = ((double)k * H.period == t); }
         else sched = std::find(H.times.begin(), H.times.end(), t) != H.times.end();
-        c.require(std::string("sched:called-at-unscheduled-time:") + (nsub.empty() ? std::string(hkName(H.kind)) : nsub), sched, [&] {
+        bool offByRoundoff = false;   // CPodes: called a few ulps off its scheduled time
+        if (!sched && isCPodes(sc.ik)) {
+            const double E = 1e-11 * std::max(1.0, std::fabs(t));
+            for (double x : H.times) offByRoundoff |= std::fabs(x - t) <= E;
+            if (H.period > 0) offByRoundoff |= std::fabs(std::round(t / H.period) * H.period - t) <= E;
+        }
+        if (offByRoundoff) { c.viol(coincKey(), Json::obj().set("scen", sc.str()).set("oracle", "sched:called-at-unscheduled-time").set("tCall", t).set("times", jvec(H.times)).set("period", H.period)); }
+        else c.require(std::string("sched:called-at-unscheduled-time:") + (nsub.empty() ? std::string(hkName(H.kind)) : nsub), sched, [&] {
             return Json::obj().set("scen", sc.str()).set("tCall", t).set("times", jvec(H.times)).set("period", H.period).set("handler", h);
         });
         bool fresh = seenTimes[h].insert(t).second;
-        c.require(std::string("sched:called-twice-at-one-time:") + hkName(H.kind), fresh, [&] { return Json::obj().set("scen", sc.str()).set("tCall", t).set("handler", h); });
+        requireS(std::string("sched:called-twice-at-one-time:") + hkName(H.kind), fresh, t, [&] { return Json::obj().set("scen", sc.str()).set("tCall", t).set("handler", h); });
     }
     // crossings that had to be reported on segment seg before time tG (window Wg of the dispatch at tG, 0 if none)
     void missing(const Traj& seg, double tG, const std::vector<double>& yObs, double Wg, const std::set<int>& called, const char* where) {
@@ -1054,7 +1106,7 @@ void runManual(Ctx& c, Scen& sc, Built& B) {
                 const int tr = (int)trans[i];
                 bool trOk = (tr == Event::NegativeToPositive || tr == Event::PositiveToNegative);
                 c.require("event:transition-is-single-direction:" + tag, trOk, [&] { return base().set("transition", tr); });
-                c.require("event:transition-in-monitored-mask:" + tag + ":" + wk, trOk && (tr & wt.mask) != 0, [&] { return base().set("transition", tr).set("wit", J.witJ(S.hs[h].wit)); });
+                J.requireK("event:transition-in-monitored-mask:" + tag + ":" + wk, trOk && (tr & wt.mask) != 0, seg, tHigh, [&] { return base().set("transition", tr).set("wit", J.witJ(S.hs[h].wit)); });
                 bool rising = tr == Event::NegativeToPositive;
                 // signs are judged up to the roundoff level of the witness (the returned before-state is
                 // re-interpolated after the advanced state was backed up, so it is not bitwise the
@@ -1132,7 +1184,7 @@ void runManual(Ctx& c, Scen& sc, Built& B) {
                     return base().set("called", Json::fromRange(got.begin(), got.end())).set("listed", Json::fromRange(listed.begin(), listed.end()));
                 });
                 bool anyTerm = false; for (size_t k = n0; k < S.log.size(); ++k) anyTerm |= S.log[k].term;
-                c.require("dispatch:terminate-flag-propagates", anyTerm == term, base);
+                if (!S.runaway) c.require("dispatch:terminate-flag-propagates", anyTerm == term, base);
                 integ.reinitialize(lowest, term);
             }
             seg.ts = tHigh; copyY(integ.getAdvancedState(), seg.y); seg.mu = S.guts->getMu(integ.getAdvancedState()); seg.nu = S.guts->getNu(integ.getAdvancedState());
